@@ -340,7 +340,13 @@ def run_batch(cases, timeout=1500):
         return "exec harness rc=%s lines=%d/%d" % (rc, len(hl), len(cases))
     rc, ml = vplib.run_lines([ocaml, "run"], "\n".join(hl) + "\n", timeout=timeout)
     if rc != 0 or len(ml) != len(cases):
-        return "exec_driver run rc=%s lines=%d/%d %s" % (rc, len(ml), len(cases), ml[-1:] if ml else "")
+        at = cases[len(ml)] if len(ml) < len(cases) else None
+        try:
+            open(os.path.join(vplib.BUILD, "exec_driver_failed_input.txt"), "w").write("\n".join(hl) + "\n")
+        except OSError:
+            pass
+        return "exec_driver run rc=%s lines=%d/%d %s at %s" % (rc, len(ml), len(cases), ml[-1:] if ml else "",
+                                                               (src_text(at.src), at.input, at.host) if at else "-")
     for c, h, m in zip(cases, hl, ml):
         hf = h.split("\t")
         mf = m.split("\t")
